@@ -168,6 +168,11 @@ where
             });
 
             *result.lock().unwrap() = Some(Ok(f()));
+
+            // As with `std`, `join` returns once the thread has exited, which
+            // includes the destructors of its thread-locals.
+            rt::drop_thread_locals();
+
             notify.notify(location);
         })
     };
